@@ -297,7 +297,32 @@ func runAlias(c AliasCase) (res common.Result) {
 		return
 	}
 	snapshot := refmodel.CloneLog(&held)
-	for _, r := range c.Reads {
+	// every other read decodes into one re-used destination struct (the `var l raft.Log; for {GetLog(i,&l);
+	// keep = append(keep, l)}` pattern): what an earlier call returned through it must not change either
+	var reuse raft.Log
+	var keptShallow []raft.Log
+	var keptDeep []*raft.Log
+	for ri, r := range c.Reads {
+		if ri%2 == 1 {
+			if err := w.GetLog(want[r].Index, &reuse); err != nil {
+				res.Fail = common.Failf("get-present-err", "GetLog(%d) = %v", want[r].Index, err)
+				return
+			}
+			if d := refmodel.Diff(want[r], &reuse); d != "" {
+				res.Fail = common.Failf("get-content", "GetLog(%d) into a re-used destination: %s", want[r].Index, d)
+				return
+			}
+			for k := range keptShallow {
+				if d := refmodel.Diff(keptDeep[k], &keptShallow[k]); d != "" {
+					res.Fail = common.Failf("held-log-changed/reused-destination", "the log returned by an earlier GetLog(%d) changed when GetLog(%d) decoded into the same raft.Log variable: %s", keptDeep[k].Index, want[r].Index, d)
+					return
+				}
+			}
+			keptShallow = append(keptShallow, reuse)
+			keptDeep = append(keptDeep, refmodel.CloneLog(&reuse))
+			res.Classes = append(res.Classes, "reused-destination")
+			continue
+		}
 		var got raft.Log
 		if err := w.GetLog(want[r].Index, &got); err != nil {
 			res.Fail = common.Failf("get-present-err", "GetLog(%d) = %v", want[r].Index, err)
